@@ -226,7 +226,7 @@ impl Check for C08 {
     }
     fn cases(&self, tier: Tier) -> u64 {
         match tier {
-            Tier::Quick => 900,
+            Tier::Quick => 900 + 130,
             Tier::Thorough => 24000,
         }
     }
@@ -234,6 +234,14 @@ impl Check for C08 {
         let r = Rng::new(crate::harness::case_seed(seed, "C08", i));
         let setups = Setup::all_extended();
         let mut setup = setups[(i % setups.len() as u64) as usize].clone();
+        // The quick tier ends with a directed block for the one clause the property names apart from
+        // the edit classes - "the loss of a generated file defeats the cache, on both paths": every
+        // setup x every file a run can lose (the five a plain run writes) x a project with and
+        // without events, as the shortest history there is: current state, lose the file, run.
+        let quick_tail: Option<u64> = if tier == Tier::Quick && i >= 900 { Some(i - 900) } else { None };
+        if let Some(j) = quick_tail {
+            setup = setups[(j % setups.len() as u64) as usize].clone();
+        }
         // thorough: two passes over all ordered pairs of change classes, once through the CLI
         // and once through the build-script path, both with the standalone configuration
         // file (the one format in which every configuration change class is expressible)
@@ -246,6 +254,14 @@ impl Check for C08 {
         gp.n_files = gp.n_files.min(4);
         gp.n_types = gp.n_types.max(2);
         gp.n_events = gp.n_events.max(1);
+        // ... but a seventh of the histories start in a project that emits nothing at all
+        // (no events.ts, an events hash over the empty list)
+        if i % 7 == 2 && pair_pass.is_none() {
+            gp.n_events = 0;
+        }
+        if let Some(j) = quick_tail {
+            gp.n_events = if (j / 65) % 2 == 0 { 0 } else { gp.n_events.max(1) };
+        }
         if pair_pass.is_some() {
             // rich enough that most classes find an eligible item
             gp.n_types = gp.n_types.max(4);
@@ -275,7 +291,7 @@ impl Check for C08 {
         // stratify the mode: every class meets both generators
         cfg.mode = if i % 2 == 0 { "zod".into() } else { "none".into() };
         let mut sr = r.split("steps");
-        let init_state = ["current", "current", "never", "other_mode"][((i / 3) % 4) as usize].to_string();
+        let init_state = if quick_tail.is_some() { "current".to_string() } else { ["current", "current", "never", "other_mode"][((i / 3) % 4) as usize].to_string() };
         // all change classes in one list; the *last* change before the final run is stratified
         let mut classes: Vec<(String, String)> = vec![];
         for e in EDIT_CLASSES {
@@ -311,7 +327,7 @@ impl Check for C08 {
         // "there and back": a configuration change, an edit, a run, the configuration change
         // taken back, a run. Whatever the intermediate configuration left behind (or did not
         // refresh) must not be vouched for once the first configuration is in force again.
-        let there_and_back = pair.is_none() && i % 9 == 4;
+        let there_and_back = pair.is_none() && i % 9 == 4 && quick_tail.is_none();
         if there_and_back {
             let before_cfg = cur_cfg.clone();
             let before_setup = cur_setup.clone();
@@ -363,7 +379,7 @@ impl Check for C08 {
         }
         // the same with a source edit, the middle run going through the OTHER entry point where
         // the layout serves both: edit, run(B), edit taken back, run(A)
-        let edit_there_and_back = pair.is_none() && i % 9 == 7;
+        let edit_there_and_back = pair.is_none() && i % 9 == 7 && quick_tail.is_none();
         if edit_there_and_back {
             let before_model = cur_model.clone();
             for _ in 0..20 {
@@ -381,7 +397,7 @@ impl Check for C08 {
                 }
             }
         }
-        let n_changes = if there_and_back || edit_there_and_back { 0 } else { n_changes };
+        let n_changes = if there_and_back || edit_there_and_back { 0 } else if quick_tail.is_some() { 1 } else { n_changes };
         for k in 0..n_changes {
             let last = k + 1 == n_changes;
             // the last change walks through all classes; earlier ones are random
@@ -389,6 +405,8 @@ impl Check for C08 {
             loop {
                 let (kind, class) = if let (Some((a, b)), 0) = (pair, tries) {
                     classes[if last { b } else { a }].clone()
+                } else if let (Some(j), 0) = (quick_tail, tries) {
+                    ("delete_output".to_string(), DELETABLE[((j / setups.len() as u64) % 5) as usize].to_string())
                 } else if last && tries == 0 {
                     classes[stratum % classes.len()].clone()
                 } else if !last && tries == 0 && n_changes == 2 {
